@@ -80,6 +80,11 @@ Proof.
 Qed.
 Print Assumptions C07_sql_unpatched_refuted.
 
+Ltac wf_by_computation :=
+  unfold batch_wf, record_wf, header_wf, in_signed, is_byte, bytes_ok, obytes_ok, olen;
+  repeat (first [split | apply Forall_cons | apply Forall_nil]);
+  vm_compute; try reflexivity; try (let Hc := fresh "Hc" in intro Hc; discriminate Hc); try exact I.
+
 Example C07_nonvacuous :
   batch_wf batch30d /\
   out (decode_sql (seg_of batch30d)) = Ok (records_of batch30d) /\
@@ -90,9 +95,6 @@ Example C07_nonvacuous :
      Ok [mkDRec 5 1699999999993 None (Some []) [([104], None); ([], Some [1; 2])]]).
 Proof.
   split; [|split; [vm_compute; reflexivity|split; [vm_compute; reflexivity|]]].
-  - unfold batch_wf, batch30d, rec0, record_wf, header_wf, in_signed, is_byte, bytes_ok, obytes_ok, olen. cbn.
-    repeat split; try lia; try discriminate; repeat constructor; try lia; try discriminate.
-  - cbv zeta. split; [|vm_compute; reflexivity].
-    unfold batch_wf, record_wf, header_wf, in_signed, is_byte, bytes_ok, obytes_ok, olen. cbn.
-    repeat split; try lia; try discriminate; repeat constructor; try lia; try discriminate.
+  - wf_by_computation.
+  - cbv zeta. split; [wf_by_computation|vm_compute; reflexivity].
 Qed.
